@@ -248,6 +248,15 @@ def check(plan):
         exercised = True
     dims = list(plan["dims"])
     child = plan.get("child_hashseed")
+    if plan["nosalt"]:
+        hb = _exec(plan, [], salt=salt)
+        steps += hb["nsys"]
+        if _view(hb) != _view(h1):
+            k, cls, where = _witness(_view(h1), _view(hb))
+            V.append({"prop": "C13", "tag": "differs:reported-salt-rerun", "key": cls,
+                      "detail": "no salt was supplied; re-running with the reported salt %r (nothing else changed) gives other "
+                                "output; witness %r (%s): %s" % (salt, k, cls, where)})
+            return _res(plan, V, probes, steps, [W.public_hist(h1), W.public_hist(hb)], True)
     h2 = _exec(plan, dims, salt=salt, child=child)
     steps += h2["nsys"]
     if child is not None:
@@ -350,7 +359,12 @@ def _gen_c10(r, seed, child=False):
         elif c < 0.70 and rw:
             tok = r.choice(rw)
             v = r.random()
-            if v < 0.6:
+            inner = [w for w in o["words"] if w.lower() in tok]
+            if v < 0.25 and inner:
+                # the reserved token and, on the same line, the bare listed word it contains
+                lines.append({"segs": [["lit", "ip domain "], ["rw", tok], ["lit", " vrf "], ["w", r.choice(inner), {"w": 0}],
+                                       ["lit", " example.net"]], "eol": "\n"})
+            elif v < 0.6:
                 lines.append({"segs": [["lit", r.choice(["", " ", "  set "])], ["rw", tok], ["lit", r.choice(["", " bgp 65001", " x"])]],
                               "eol": "\n"})
             else:   # near misses: not exactly the reserved word, so the listed word inside must go
